@@ -2,6 +2,11 @@
 
 package bytecode
 
+import (
+	"sync"
+	"sync/atomic"
+)
+
 // This file is only built with the "verif" tag. It exposes read-only views of
 // the compiler's symbol table and the VM's state for external verification
 // harnesses. It adds no behaviour.
@@ -84,4 +89,50 @@ type VerifTableState struct {
 // VerifState returns the counters of the symbol table.
 func (s *SymbolTable) VerifState() VerifTableState {
 	return VerifTableState{Index: s.index, NestedMaxIndex: s.nestedMaxIndex, IsGlobal: s.outer == nil}
+}
+
+// VerifBudgetExceeded is the panic value of a VM run that executed more
+// instructions than the budget set with VerifSetBudget allows.
+type VerifBudgetExceeded struct{ Steps int64 }
+
+// VerifAborted is the panic value of a VM run whose abort flag was raised.
+type VerifAborted struct{ Steps int64 }
+
+type verifBudget struct {
+	steps, max int64
+	abort      *atomic.Bool
+}
+
+var verifBudgets sync.Map // *VM -> *verifBudget
+
+// VerifSetBudget makes Run panic with VerifBudgetExceeded after max
+// instructions and with VerifAborted once abort is set. Without a call to
+// VerifSetBudget a VM runs as it does without the "verif" tag.
+func (vm *VM) VerifSetBudget(max int64, abort *atomic.Bool) {
+	verifBudgets.Store(vm, &verifBudget{max: max, abort: abort})
+}
+
+// VerifSteps returns the number of instructions executed so far by a VM
+// that has a budget, and removes its bookkeeping.
+func (vm *VM) VerifSteps() int64 {
+	b, ok := verifBudgets.LoadAndDelete(vm)
+	if !ok {
+		return 0
+	}
+	return b.(*verifBudget).steps
+}
+
+func verifStep(vm *VM) {
+	v, ok := verifBudgets.Load(vm)
+	if !ok {
+		return
+	}
+	b := v.(*verifBudget)
+	b.steps++
+	if b.steps > b.max {
+		panic(VerifBudgetExceeded{Steps: b.steps})
+	}
+	if b.abort != nil && b.steps&1023 == 0 && b.abort.Load() {
+		panic(VerifAborted{Steps: b.steps})
+	}
 }
